@@ -1069,13 +1069,15 @@ fn execute_once(cfg: &WorldCfg, case: &Case) -> Result<Info, Violation> {
     // conservation
     let leaked_maps = sys::live_mappings();
     let maps_after = leaked_maps.len();
-    let _ = sys::take_violations();
+    let mviols = sys::take_violations();
     let rep = tracker::disarm();
     let reaped = if maps_after > maps_before { sys::reap_leaked() } else { 0 };
     let _ = reaped;
     if prop == "C09" && viol.is_none() {
         if let Some(v) = rep.viols.first() {
             viol = Some(Violation::new(format!("C09/{}", v.kind.name()), format!("allocator saw {} of a {}-byte block (requested size {}, align {} vs {}){}", v.kind.name(), v.size, v.req_size, v.align, v.req_align, if v.in_lib { " inside a library call" } else { "" })));
+        } else if let Some((_, len)) = mviols.iter().find(|(k, _)| *k == sys::MViol::DoubleUnmap) {
+            viol = Some(Violation::new("C09/double-release", format!("a loader mapping of {} bytes was unmapped a second time", len)));
         } else if rep.lib_live_blocks > 0 || maps_after > maps_before {
             // attribute the leak to the operation that created the largest leaked block / mapping
             let op = leaked_maps.first().map(|m| m.op as usize).or(rep.leaked.first().map(|l| l.1 as usize)).unwrap_or(usize::MAX);
@@ -1095,7 +1097,7 @@ fn execute_once(cfg: &WorldCfg, case: &Case) -> Result<Info, Violation> {
 
 const WORLD_DOCS: &[&str] = &[
     "PaddedVecU64", "PaddedZ32", "PaddedStr", "DropProbeD", "VecU64", "BoxU32", "VecZ32", "PersonD", "DeepA", "DeepB", "DeepC", "VecString", "Str", "VecZeroP", "OptVecU64", "EnumDVec", "VecVecU32", "ArrString", "U64",
-    "VecU8", "VecU128", "IncrA", "IncrB", "IncrD", "VecZ64", "DeepD", "HolderA", "HolderB", "HolderD", "MiscA", "MiscB", "MiscC", "TupleSD", "ArrU64x4", "E9D", "BoundString", "CfStrVec", "ConstGen3", "PhantomD", "VecPair", "Unit",
+    "VecU8", "VecU128", "IncrA", "IncrB", "IncrD", "VecZ64", "DeepD", "HolderA", "HolderB", "HolderD", "HolderE", "Z64D", "ArrVecString", "ArrOptVec", "MiscA", "MiscB", "MiscC", "TupleSD", "ArrU64x4", "E9D", "BoundString", "CfStrVec", "ConstGen3", "PhantomD", "VecPair", "Unit",
 ];
 
 fn pick_vi(r: &mut Rng, max_vi: u64) -> u64 {
@@ -1104,6 +1106,7 @@ fn pick_vi(r: &mut Rng, max_vi: u64) -> u64 {
         1 => 1,
         2 => 2,
         3 => 5,
+        10 => 3, // the large payload (hundreds of KiB) of the documents that have one
         // boundary-fitted stream lengths (8192, 4096, 64, 16; -1, 0, +1) for Padded documents
         4 | 5 => 6 + r.below(12),
         _ => 18 + r.below(max_vi),
